@@ -154,3 +154,125 @@ def run(chk, thorough, seed, configs=None, simulate=True):
         elif len(stats['disagreements']) < 5:
             stats['disagreements'].append({'text': r['text'], 'why': r.get('why')})
     return stats
+
+
+# ---------------------------------------------------------------------------
+# PipelineD2: FILL development + inlining + cell references, every option set
+
+CONFIGS2 = [
+    (3, 'DupsNone', ['px -3', 'py 0', 'pz 2'], []),
+    (3, 'DupsDeck', ['px -3', 'py 0', 'px -3'], [[1, 3]]),
+    (3, 'DupsAux0', ['px -3', 'px 1', 'pz 2'], [[2, 4]]),
+]
+
+
+def fill_opts(o):
+    opts = []
+    if o['filled']:
+        opts.append('--always-inline-filled')
+    if o['filling']:
+        opts.append('--always-inline-filling')
+    opts += ['--max-inline-score', repr(o['max2'] / 2)]
+    return opts
+
+
+def replay_fill(job):
+    tid, rec, nsurf, cards = job
+    cells = [{'n': c['key'], 'geom': to_expr(c['geom']), 'u': c['u'], 'fill': c['fill']}
+             for c in sorted(rec['deck'], key=lambda c: c['key'])]
+    deck = adeck.normalise({'surfs': [{'n': i + 1, 'k': c.split()[0], 'p': [int(x) for x in c.split()[1:]]}
+                                      for i, c in enumerate(cards)], 'cells': cells})
+    deck['pts'] = PTS
+    deck['opts'] = fill_opts(rec['opts'])
+    text = adeck.concretise(deck)
+    res = conv.convert(text, deck['opts'])
+    out = {'tid': tid, 'result': res['result'], 'agree': False, 'text': text, 'err': res['error'], 'deck': deck,
+           'file': None, 'note': conv.note_cells(res['stdout']), 'opts': deck['opts']}
+    if res['result'] != 'ok':
+        return out
+    t4 = t4file.parse(res['out'])
+    out['file'] = t4file.project(t4, PTS, with_witness=False)
+    out['file']['wit'] = []
+    out['file']['cinfo'] = []
+    aux = {}
+    for s in t4['surfs']:
+        if 'aux plane for unions' in s['comment']:
+            aux[s['id']] = nsurf + 1 if float(s['ptoks'][0]) == 1.0 else nsurf + 2
+    rep = {b: a for a, b in rec.get('dups', [])}
+    aux = {k: rep.get(v, v) for k, v in aux.items()}
+    real_ids = {v['id'] for v in t4['vols']}
+    model_ids = {v['id'] for v in rec['vols']}
+    why = []
+    for c in rec['conv']:
+        k = c['key']
+        if (k in real_ids) != (k in model_ids):
+            why.append('volume %d present in %s only' % (k, 'code' if k in real_ids else 'model'))
+        elif k in real_ids:
+            cm, cr = canon_model(rec['vols'], k, nsurf, None), canon_real(t4, k, aux)
+            if cm != cr:
+                why.append('volume %d: model %r code %r' % (k, cm, cr))
+    nfict_model = sum(1 for v in rec['vols'] if v['fict'])
+    nfict_real = sum(1 for v in t4['vols'] if 'FICTIVE' in v['toks'])
+    if nfict_model != nfict_real:
+        why.append('fictive volumes: model %d code %d' % (nfict_model, nfict_real))
+    out['agree'] = not why
+    if why:
+        out['why'] = '; '.join(why[:3])
+    return out
+
+
+def run_fill(chk, thorough, seed, configs=None):
+    """Model-check PipelineD2 (every deck x every option set) and replay every emitted behaviour."""
+    stats = {'design_states': 0, 'design_decks': 0, 'replayed': 0, 'structural_agreement': 0, 'disagreements': []}
+    recs_all = []
+    for nsurf, dups, cards, pairs in (configs or (CONFIGS2 if thorough else CONFIGS2[:2])):
+        cfg = ('INIT Init\nNEXT Next\nCONSTANTS NSurf = %d\n Dups <- %s\n'
+               'INVARIANT MeaningPreserved\nINVARIANT Wellformed\nINVARIANT InlineSound\nCHECK_DEADLOCK FALSE\n'
+               % (nsurf, dups))
+        res = tlc.run('PipelineD2', cfg, workers=16, timeout=3000)
+        chk.add_tlc(res)
+        stats['design_states'] += res['distinct']
+        if res['violation']:
+            chk.violation({'clause': 'design:' + res['violation'], 'dups': dups, 'where': 'PipelineD2'},
+                          {'what': 'PipelineD2 design invariant violated', 'tlc': tlc._tail(res['stdout'], 60)})
+        recs = [r for r in tlc.printed_json(res['stdout']) if isinstance(r, dict) and 'conv' in r]
+        recs.sort(key=lambda r: json.dumps(r, sort_keys=True))
+        if not thorough:
+            # every option set is kept; decks are thinned deterministically
+            import random
+            rng = random.Random(seed)
+            recs = rng.sample(recs, min(len(recs), 800))
+        for r in recs:
+            r['dups'] = pairs
+            recs_all.append((r, nsurf, cards))
+    stats['design_decks'] = len(recs_all)
+    jobs = [(i + 1, r, n, c) for i, (r, n, c) in enumerate(recs_all)]
+    results = conv.run_batch(replay_fill, jobs, chunksize=32)
+    good = [r for r in results if 'machinery_error' not in r and r['result'] == 'ok']
+    try:
+        verdicts = deckrun.validate(chk, good, {r['tid']: r['deck'] for r in good}, 'owner')
+    except tlc.TLCFailure as exc:
+        chk.machinery(str(exc))
+        verdicts = {}
+    byid = {r['tid']: r for r in good}
+    for tid, v in sorted(verdicts.items()):
+        for kind, k in v['bad']:
+            if kind in ('spurious', 'unowned', 'multi', 'wrongid', 'wrongprov'):
+                chk.violation({'clause': kind, 'where': 'fill design replay', 'errtype': None,
+                               'features': 'fill,' + ' '.join(byid[tid]['opts'][:-2])},
+                              {'text': byid[tid]['text'], 'deck': byid[tid]['deck'], 'clauses': 'owner',
+                               'opts': byid[tid]['opts'], 'point2': PTS[k - 1] if k else None})
+    for r in results:
+        if 'machinery_error' in r:
+            chk.machinery(r['machinery_error'])
+            continue
+        stats['replayed'] += 1
+        if r['result'] != 'ok':
+            chk.violation({'clause': 'crash', 'errtype': r['err']['type'] if r['err'] else None,
+                           'where': 'fill design replay'},
+                          {'text': r['text'], 'error': r['err'], 'opts': r['opts']})
+        elif r['agree']:
+            stats['structural_agreement'] += 1
+        elif len(stats['disagreements']) < 5:
+            stats['disagreements'].append({'text': r['text'], 'opts': r['opts'], 'why': r.get('why')})
+    return stats
